@@ -41,6 +41,10 @@ type Case struct {
 	Obj        string    `json:"obj"`         // lin: which structure
 	Pre        [][]any   `json:"pre"`         // lin: sequential prefix (results not recorded)
 	Threads    [][][]any `json:"threads"`     // lin: one script per goroutine
+	GateAt     int64     `json:"gate_at"`     // window_gate: virtual time of the gated Reduce
+	Hold       int       `json:"hold"`        // window_gate: the callback parks after recording this many buckets
+	Adds       [][]any   `json:"adds"`        // window_gate: [time, value] added by another goroutine meanwhile
+	Post       [][]any   `json:"post"`        // window_gate: sequential operations afterwards
 }
 
 type Out struct {
@@ -49,6 +53,7 @@ type Out struct {
 	At   []int64 `json:"at,omitempty"`   // cache_rt: milliseconds since the start, per operation
 	Pair any     `json:"pair,omitempty"` // cache_take2: what the second, concurrent Take saw
 	Free [][]Ev  `json:"free,omitempty"` // lin: per goroutine, every call with logical call/return times
+	Gate any     `json:"gate,omitempty"` // window_gate: what the gated Reduce was shown, and what the Adds did meanwhile
 	Err  string  `json:"err,omitempty"`
 }
 
@@ -715,6 +720,113 @@ func runCacheTake2(c Case, out *Out) {
 	}
 }
 
+// ---- a Reduce held inside its callback while another goroutine Adds -----------------------
+
+// Forced schedule: the prefix runs sequentially; then Reduce is called at gate_at with a
+// callback that records each bucket's values when it is handed the bucket and parks after
+// the hold-th one; while it is parked another goroutine moves the virtual clock on and Adds
+// (rolling the window by whole buckets); the controller waits until those Adds have returned
+// or the adding goroutine is parked on the window's lock, then lets the callback go on.
+// Reported: what the callback was shown, whether it was parked at all, whether the Adds had to
+// wait.  Then the post operations run sequentially.
+func addWaits(stack string) bool {
+	return strings.Contains(stack, "RollingWindow") && strings.Contains(stack, ".Add(") && hx.Blocked(stack)
+}
+
+func runWindowGate(c Case, out *Out) {
+	timex.SetFakeNow(time.Duration(c.T0))
+	var opts []collection.RollingWindowOption[int64, *lb]
+	if c.Ignore {
+		opts = append(opts, collection.IgnoreCurrentBucket[int64, *lb]())
+	}
+	w := collection.NewRollingWindow[int64, *lb](func() *lb { return &lb{} }, c.Size,
+		time.Duration(c.Interval), opts...)
+	seq := func(op []any) {
+		switch op[0].(string) {
+		case "add":
+			timex.SetFakeNow(time.Duration(num(op[1])))
+			w.Add(num(op[2]))
+		case "reduce":
+			timex.SetFakeNow(time.Duration(num(op[1])))
+			buckets := [][]int64{}
+			w.Reduce(func(b *lb) { buckets = append(buckets, append([]int64{}, b.vals...)) })
+			out.Obs = append(out.Obs, buckets)
+		}
+	}
+	for _, op := range c.Ops {
+		seq(op)
+	}
+	timex.SetFakeNow(time.Duration(c.GateAt))
+	entered := make(chan struct{})
+	release := make(chan struct{})
+	reduced := make(chan [][]int64, 1)
+	go func() {
+		view := [][]int64{}
+		w.Reduce(func(b *lb) {
+			view = append(view, append([]int64{}, b.vals...))
+			if len(view) == c.Hold {
+				close(entered)
+				<-release
+			}
+		})
+		reduced <- view
+	}()
+	gated := false
+	var view [][]int64
+	select {
+	case <-entered:
+		gated = true
+	case view = <-reduced: // fewer buckets than hold: never parked
+	case <-time.After(10 * time.Second):
+		out.Err = "gated Reduce neither parked nor returned"
+		return
+	}
+	added := make(chan struct{})
+	go func() {
+		defer close(added)
+		for _, a := range c.Adds {
+			timex.SetFakeNow(time.Duration(num(a[0])))
+			w.Add(num(a[1]))
+		}
+	}()
+	waited := false
+	if gated {
+		deadline := time.Now().Add(5 * time.Second)
+	poll:
+		for time.Now().Before(deadline) {
+			select {
+			case <-added:
+				break poll
+			default:
+			}
+			for _, g := range hx.Stacks() {
+				if addWaits(g) {
+					waited = true
+					break poll
+				}
+			}
+			time.Sleep(100 * time.Microsecond)
+		}
+		close(release)
+		select {
+		case view = <-reduced:
+		case <-time.After(10 * time.Second):
+			out.Err = "gated Reduce did not return"
+			return
+		}
+	}
+	select {
+	case <-added:
+	case <-time.After(10 * time.Second):
+		out.Err = "Add did not return"
+		return
+	}
+	out.Gate = map[string]any{"view": view, "gated": gated, "add_waited": waited}
+	for _, op := range c.Post {
+		seq(op)
+	}
+}
+
 // ---- free-running goroutines on one object ---------------------------------------------
 
 func makeStepper(kind string, c Case) (stepper, error) {
@@ -836,6 +948,8 @@ func runCase(c Case) (out Out) {
 		runCacheTake2(c, &out)
 	case "lin":
 		runLin(c, &out)
+	case "window_gate":
+		runWindowGate(c, &out)
 	default:
 		out.Err = "unknown kind " + c.Kind
 	}
